@@ -506,6 +506,22 @@ async fn procs(w: &Arc<World>, p: &Plan) {
         }
     }
     let pvals: Vec<Val> = pids.iter().map(pid_val).collect();
+    // the death interval ends no earlier than the last notice the dying process caused (an
+    // implementation may let go of the process object before it has told everybody)
+    for e in &events {
+        let from = match &e.got {
+            Got::Exit { from, .. } => Some(from),
+            Got::MonitorExit { monitored, .. } => Some(monitored),
+            _ => None,
+        };
+        if let Some(i) = from.and_then(|f| pvals.iter().position(|v| v == f)) {
+            if let Some(d) = dropped_at.get_mut(&i) {
+                if e.seq > *d {
+                    *d = e.seq;
+                }
+            }
+        }
+    }
     let mut p_all = p.clone();
     p_all.n_procs = np as u32;
     let p = &p_all;
